@@ -96,7 +96,7 @@ package txmgr
 //@ func readCreditValue
 //@   props C01 C09 C10 C19
 //@   requires cred != nil
-//@   modifies cred
+//@   modifies &cred.amount, &cred.flags, &cred.maturity, &cred.scriptHash
 //@   ensures len(v) < 45 ==> err != nil
 //@   ensures len(v) >= 45 ==> (err == nil) == (mathint(be64(v, 0)) <= maxAmt() && mathdiv(mathint(v[8]), 4) % 4 != 3)
 //@   ensures err == nil ==> amt(cred.amount) == mathint(be64(v, 0)) && cred.maturity == be32(v, 9)
